@@ -153,6 +153,7 @@ var binaryOps = []string{"Add", "Sub", "Mul", "Div", "Pow", "Min", "Max", "ADD",
 type gen struct {
 	r *Rng
 	w *CaseWriter
+	ws *CaseWriter // round 6: histories (coq/C02/CorrSt.v), own shard files seq_<k>.v
 	o Opts
 	// oracle entries seen over the whole run, for the certificates
 	cert  map[[3]uint64]entry
@@ -172,6 +173,33 @@ func (g *gen) emit(c Case, group string) {
 		key += fmt.Sprintf("|%d", a.T)
 	}
 	nontriv := res.Kind != "panic" && (len(c.A)+len(c.X) > 0 || c.VX != nil || c.MA != nil)
+	if c.Op == "Seq" {
+		w := g.ws
+		for _, st := range c.Steps {
+			key += "|" + st.Op
+			w.Count("step:" + genericName(st.Op) + ":" + types[c.TC].Name)
+			for _, a := range st.A {
+				if a.T == aliasT {
+					w.Count("aliased-operand")
+				}
+			}
+		}
+		w.Add(res.Coq, c, key+"|"+res.Text, len(c.Steps) > 0)
+		w.Count("recv:" + tname(c))
+		w.Count("outcome:" + res.Kind)
+		w.Count(fmt.Sprintf("tracked-order:%d", c.Order))
+		if c.DD {
+			w.Count("dirty-derivatives")
+		}
+		if c.TT[0] != c.TC || c.TT[1] != c.TC || c.TT[2] != c.TC {
+			w.Count("mixed-type-scratch")
+		}
+		for _, e := range res.Oracle.ents {
+			k := [3]uint64{uint64(e.id), math.Float64bits(e.a), math.Float64bits(e.b)}
+			g.cert[k] = e
+		}
+		return
+	}
 	if tag := repTag(c); tag != "" {
 		key += "|" + tag
 		for _, t := range strings.Split(tag, "*") {
@@ -588,6 +616,10 @@ func (g *gen) generate(n int) {
 		g.generateReps(rep)
 		// round 5: Erf / Erfc / LogErfc on both sides (and both signs) of every branch threshold
 		g.generateErfcStrata(rep)
+		// round 6: histories on one receiver and one (dirty) scratch bank
+		g.generateSeq(rep)
+		// round 6: math.Pow special cases on every code path that computes a power
+		g.generatePowStrata(rep)
 	}
 }
 
@@ -791,12 +823,46 @@ func (g *gen) writeCerts(dir string, capGoals, perFile int) map[string]int {
 		os.WriteFile(filepath.Join(dir, "cert_special.v"), []byte(body), 0644)
 		nf++
 	}
+	// round 6: the special-case table of x^y (coq/C02/CorrPow.v: fpow_expect): EVERY recorded math.Pow call
+	var pw []string
+	for _, k := range keys {
+		e := g.cert[k]
+		if e.id != idPow {
+			continue
+		}
+		pw = append(pw, fmt.Sprintf("(%d, %s, %s, %s)", e.id, F(e.a), F(e.b), F(e.r)))
+		nf64 := func(x float64) bool { return math.IsNaN(x) || math.IsInf(x, 0) }
+		if nf64(e.a) || nf64(e.b) || nf64(e.r) || e.a == 0 || e.b == 0 || e.a == 1 {
+			stats["pow-table:special"]++
+		} else if e.a < 0 {
+			stats["pow-table:negative-base-sign"]++
+		} else {
+			stats["pow-table:regular"]++
+		}
+	}
+	if len(pw) > 0 {
+		sort.Strings(pw)
+		body := "From Coq Require Import ZArith List Floats.\nFrom ADV Require Import Base.Corr C02.Model C02.Corr C02.Ext C02.CorrExt C02.CorrPow.\nImport ListNotations.\nOpen Scope Z_scope.\n" +
+			"Definition ents : list oentry := [\n  " + strings.Join(pw, ";\n  ") + "].\n" +
+			"Definition M := Eval vm_compute in (mismatches pow_special_ok ents).\nPrint M.\n"
+		os.WriteFile(filepath.Join(dir, "cert_pow.v"), []byte(body), 0644)
+		nf++
+	}
 	stats["goal-files"] = nf
 	stats["goals"] = len(goals) + len(lgoals) + len(exact)
 	return stats
 }
 
 // ---------------------------------------------------------------- main
+
+const headerSeq = "From Coq Require Import ZArith List Floats.\nFrom ADV Require Import Base.Corr C02.Model C02.ModelSt C02.Corr C02.CorrSt.\nImport ListNotations.\nOpen Scope Z_scope.\n"
+
+func newSeqWriter(o Opts, name string) *CaseWriter {
+	w := NewCaseWriter(o.Out, name, headerSeq, "mism_seq", 40)
+	w.Type = "scase"
+	w.Rule = "a history is non-trivial when it has at least one step; distinct = distinct (receiver type, scratch types, step names, observed results)"
+	return w
+}
 
 const header = "From Coq Require Import ZArith List Floats.\nFrom ADV Require Import Base.Corr C02.Model C02.ModelVec C02.Corr.\nImport ListNotations.\nOpen Scope Z_scope.\n"
 
@@ -837,7 +903,7 @@ func main() {
 		replay(o)
 		return
 	}
-	g := &gen{r: NewRng(o.Seed), w: newWriter(o, "cases"), o: o, cert: map[[3]uint64]entry{}}
+	g := &gen{r: NewRng(o.Seed), w: newWriter(o, "cases"), ws: newSeqWriter(o, "seq"), o: o, cert: map[[3]uint64]entry{}}
 	// committed corpus first
 	if o.Extra != "" {
 		for _, c := range loadCases(o.Extra) {
@@ -855,10 +921,19 @@ func main() {
 	if err := g.w.Flush(); err != nil {
 		Die("flush: %v", err)
 	}
+	if err := g.ws.Flush(); err != nil {
+		Die("flush: %v", err)
+	}
 	files, _ := filepath.Glob(filepath.Join(o.Out, "cases_*.v"))
 	for _, f := range files {
 		b, _ := os.ReadFile(f)
 		b = append(b, []byte("Definition E := Eval vm_compute in (excluded cases).\nPrint E.\n")...)
+		os.WriteFile(f, b, 0644)
+	}
+	files, _ = filepath.Glob(filepath.Join(o.Out, "seq_*.v"))
+	for _, f := range files {
+		b, _ := os.ReadFile(f)
+		b = append(b, []byte("Definition E := Eval vm_compute in (excluded_seq cases).\nPrint E.\n")...)
 		os.WriteFile(f, b, 0644)
 	}
 }
@@ -877,7 +952,12 @@ func replay(o Opts) {
 	}
 	w := newWriter(o, "replay")
 	res := run(*rp.Case)
-	w.Add(coqCase(*rp.Case, res), *rp.Case, "replay", true)
+	if rp.Case.Op == "Seq" {
+		w = newSeqWriter(o, "replay")
+		w.Add(res.Coq, *rp.Case, "replay", true)
+	} else {
+		w.Add(coqCase(*rp.Case, res), *rp.Case, "replay", true)
+	}
 	w.Flush()
 	fmt.Printf("replayed %s on %s: %s\n", rp.Case.Op, tname(*rp.Case), res.Text)
 }
